@@ -29,7 +29,9 @@
  *   - ly_err_clean(), per-case CPU limit (RB_CPU_LIMIT seconds of process CPU time, default 10 -> line "TIMEOUT"),
  *   - the call; return code; on error: every output pointer is NULL (except the documented NETCONF/RESTCONF envelope tree),
  *     an error record with a message exists (not required for LY_ENOT / LY_ENOTFOUND / LY_EINCOMPLETE), the module list of
- *     the context (name, revision, implemented, latest-revision flag, enabled features) is what it was before the call;
+ *     the context (name, revision, implemented, latest-revision flag, enabled features) is what it was before the call; the
+ *     dictionary of the context holds the same strings with the same reference counts as before the call; the log-location
+ *     stack of the thread is empty;
  *   - the light health workload is re-run and compared with the baseline; after a failed module load also the full one;
  *   - everything is freed; under ASan the leak checker runs after every case (__lsan_do_recoverable_leak_check) and a
  *     leak is reported as  !leak(<allocating libyang function>,<its caller>)  read from the captured report;
@@ -48,6 +50,10 @@
 #include "libyang.h"
 #include "ly_common.h"              /* struct ly_ctx: only to COUNT the dictionary strings (read-only) */
 #include "hash_table_internal.h"
+
+/* the thread's log-location stack of src/log.c (schema node / data node / path / input the next message is attributed to):
+ * every public call must leave it empty, otherwise later messages carry a stale path and a freed node may be read */
+extern THREAD_LOCAL struct ly_log_location_s log_location;
 
 /* ------------------------------------------------------------------------------------------------------------- */
 static const char *MOD_RB =
@@ -171,8 +177,8 @@ log_cb(LY_LOG_LEVEL level, const char *msg, const char *data_path, const char *s
     }
 }
 
-/* run the leak checker with its report (fd 2) captured; a leak becomes the word  !leak(<function>,<caller>)  made of the
- * first two libyang frames of the first allocation stack, so that the harness needs no stderr and the process lives on */
+/* run the leak checker with its report (fd 2) captured; a leak becomes the word  !leak(<function>,<caller>,<caller>)  made of the
+ * first three libyang frames of the first allocation stack, so that the harness needs no stderr and the process lives on */
 static void __attribute__((noinline))
 scrub_stack(void)
 {
@@ -183,22 +189,23 @@ scrub_stack(void)
     }
 }
 
-static void
+static int
 leak_check(void)
 {
     static char buf[262144];
     int saved, n = 0;
     FILE *tmp;
-    char *p, *q, f1[80] = "?", f2[80] = "?";
+    char *p, *q, fr[3][80] = {"?", "?", "?"};
 
     scrub_stack();
     fflush(stderr);
     tmp = tmpfile();
     if (!tmp) {
         if (__lsan_do_recoverable_leak_check()) {
-            printf(" !leak(?,?)");
+            printf(" !leak(?,?,?)");
+            return 1;
         }
-        return;
+        return 0;
     }
     saved = dup(2);
     dup2(fileno(tmp), 2);
@@ -215,12 +222,8 @@ leak_check(void)
 
             if (sscanf(p + 4, "%79s %255s", fn, path) == 2) {
                 if (strstr(path, "/src/") && !strstr(path, "/impl/")) {
-                    if (n == 0) {
-                        strcpy(f1, fn);
-                    } else if (n == 1) {
-                        strcpy(f2, fn);
-                    }
-                    if (++n == 2) {
+                    strcpy(fr[n], fn);
+                    if (++n == 3) {
                         break;
                     }
                 }
@@ -230,7 +233,7 @@ leak_check(void)
                 break;          /* end of the first allocation stack */
             }
         }
-        printf(" !leak(%s,%s)", f1, f2);
+        printf(" !leak(%s,%s,%s)", fr[0], fr[1], fr[2]);
         /* "Objects leaked above:" / "0x60c000001234 (56 bytes)" : set them aside */
         for (p = buf; __lsan_ignore_object && (p = strstr(p, "\n0x")); ) {
             unsigned long long a = strtoull(p + 1, &q, 16);
@@ -243,11 +246,14 @@ leak_check(void)
         if (getenv("RB_DEBUG")) {
             fputs(buf, stderr);
         }
-    } else {
-        dup2(saved, 2);
+        close(saved);
+        fclose(tmp);
+        return 1;
     }
+    dup2(saved, 2);
     close(saved);
     fclose(tmp);
+    return 0;
 }
 
 static uint64_t
@@ -266,6 +272,22 @@ fnvs(uint64_t h, const char *s)
 }
 
 #define FNV0 1469598103934665603ULL
+
+/* number of dictionary strings and the sum of their reference counts (read-only walk over the hash table) */
+static void
+dict_stat(const struct ly_ctx *ctx, uint32_t *strings, uint64_t *refs)
+{
+    struct ly_ht *ht = ctx->dict.hash_tab;
+    struct ly_ht_rec *rec;
+    uint32_t hl, ri;
+    uint64_t r = 0;
+
+    LYHT_ITER_ALL_RECS(ht, hl, ri, rec) {
+        r += ((struct ly_dict_rec *)rec->val)->refcount;
+    }
+    *strings = ht->used;
+    *refs = r;
+}
 
 /* per-case CPU limit */
 static const char *cur_entry = "?";
@@ -333,6 +355,7 @@ struct shard {
     unsigned hx;               /* serial number of the next extra module */
     int dirty;
     unsigned cases;
+    int blamed;                /* some case of this context already reported strings / memory it left behind */
 };
 
 static uint64_t
@@ -588,7 +611,9 @@ shard_close(struct shard *S, int compare_fresh)
     ly_ctx_destroy(S->ctx);
     S->ctx = NULL;
     if (notfreed_warn) {
-        printf("!ctx-destroy-not-freed=%d ", notfreed_warn);
+        /* strings still referenced when the context is destroyed: a failure of its own only when no case of this context
+         * was reported for leaving strings or memory behind (those are the cause, and they are reported precisely) */
+        printf("%sctx-destroy-not-freed=%d ", S->blamed ? "" : "!", notfreed_warn);
     }
 }
 
@@ -725,6 +750,7 @@ run_case(struct shard *S, struct vcase *c, int nf)
     struct health H;
     char why[128];
     uint32_t dict0, dict1;
+    uint64_t ref0, ref1;
     size_t heap0, heap1;
 
     if (!strcmp(entry, "yang") || !strcmp(entry, "yin")) {
@@ -735,7 +761,7 @@ run_case(struct shard *S, struct vcase *c, int nf)
     }
     sig0 = ctx_sig(ctx, &nmod0);
     ly_err_clean(ctx, NULL);
-    dict0 = ctx->dict.hash_tab->used;
+    dict_stat(ctx, &dict0, &ref0);
     heap0 = __sanitizer_get_current_allocated_bytes ? __sanitizer_get_current_allocated_bytes() : 0;
     printf("%s ", entry);
 
@@ -1011,11 +1037,20 @@ run_case(struct shard *S, struct vcase *c, int nf)
     check_record(ctx, rc);
     free(in);
 
+    /* the call must have popped every log location it pushed */
+    if (log_location.scnodes.count || log_location.dnodes.count || log_location.paths.count || log_location.inputs.count) {
+        printf("!log-location-left(schema=%u,data=%u,path=%u,input=%u) ", log_location.scnodes.count, log_location.dnodes.count,
+                log_location.paths.count, log_location.inputs.count);
+        ly_log_location_revert(log_location.scnodes.count, log_location.dnodes.count, log_location.paths.count,
+                log_location.inputs.count);
+    }
+
     /* no call may leave strings in the dictionary of the context (except a module that was loaded) */
     ly_err_clean(ctx, NULL);
-    dict1 = ctx->dict.hash_tab->used;
-    if (!(module_entry && !rc) && (dict1 != dict0)) {
-        printf("!dict-strings-left=%d ", (int)(dict1 - dict0));
+    dict_stat(ctx, &dict1, &ref1);
+    if (!(module_entry && !rc) && ((dict1 != dict0) || (ref1 != ref0))) {
+        printf("!dict-strings-left=%d/refs=%lld ", (int)(dict1 - dict0), (long long)(ref1 - ref0));
+        S->blamed = 1;
     }
     heap1 = __sanitizer_get_current_allocated_bytes ? __sanitizer_get_current_allocated_bytes() : 1;
     heap_grew = (heap1 > heap0) && !(module_entry && !rc);
@@ -1111,7 +1146,9 @@ main(void)
          * (allocator statistics of the sanitizer run time; growth that is no leak, e.g. a resized hash table, only costs
          * the check) and after every 64th case */
         if (have_lsan && (heap_grew || !(++ncase % 64))) {
-            leak_check();
+            if (leak_check()) {
+                S.blamed = 1;
+            }
         }
         VEND();
     }
